@@ -346,7 +346,7 @@ type slMicro struct {
 	Name  string
 	Pre   bool // key 30 present initially (height given by PreLevel)
 	PreLv int
-	Progs []string // I<level> insert 30 with that level, D delete 30, L lookup 30, N insert neighbour 29, M delete neighbour 20, S insert successor 31, T lookup 31
+	Progs []string // I<level> insert 30 with that level, D delete 30, L lookup 30, N insert neighbour 29, M delete neighbour 20, P delete 10, S insert successor 31, V insert 35 with height 1, T lookup 31
 }
 
 var slMicros = []slMicro{
@@ -362,6 +362,10 @@ var slMicros = []slMicro{
 	{"insert(h2);delete || insert(h1)", false, 0, []string{"I2D", "I1"}},
 	{"delete(h0 node) || insert successor", true, 0, []string{"D", "S"}},
 	{"delete(h1 node) || insert successor || lookup successor", true, 1, []string{"D", "S", "T"}},
+	// runs of adjacent marked-but-still-linked nodes (10, 20, 30 are neighbours) met by a later search
+	{"delete 10 || delete 20 || delete;insert(h0)", true, 0, []string{"P", "M", "DI0"}},
+	// a neighbour takes the level-1 slot while the inserter links level 1, the half-linked node is deleted, then a key is inserted right behind it
+	{"insert(h1) || insert 35(h1) || delete;insert successor", false, 0, []string{"I1", "V", "DS"}},
 }
 
 // c13Micro explores one micro-scenario. judge selects whose oracles count:
@@ -487,22 +491,34 @@ func c13Micro(c *rt.C, sc slMicro, maxSched, extra int, judge string) {
 						hmu.Lock()
 						others[31] = true
 						hmu.Unlock()
+					case 'V':
+						key30 = false
+						if _, ok := s.Insert3(e.intItem(35), skiplist.CompareInt, nil, b, 1, false, &s.Stats); !ok {
+							panic("insert of 35 failed")
+						}
+						hmu.Lock()
+						others[35] = true
+						hmu.Unlock()
 					case 'T':
 						key30 = false
 						s.Lookup(e.intItem(31), skiplist.CompareInt, b, &s.Stats)
-					case 'M':
+					case 'M', 'P':
 						key30 = false
+						k := 20
+						if prog[j] == 'P' {
+							k = 10
+						}
 						var ok bool
 						if e.a != nil {
-							ok = delMM(e.intItem(20), b)
+							ok = delMM(e.intItem(k), b)
 						} else {
-							ok = s.Delete(e.intItem(20), skiplist.CompareInt, b, &s.Stats)
+							ok = s.Delete(e.intItem(k), skiplist.CompareInt, b, &s.Stats)
 						}
 						if !ok {
 							panic("neighbour delete failed")
 						}
 						hmu.Lock()
-						delete(others, 20)
+						delete(others, k)
 						hmu.Unlock()
 					}
 					if key30 {
@@ -579,6 +595,13 @@ func c13Micro(c *rt.C, sc slMicro, maxSched, extra int, judge string) {
 		if !intsEqual(got, want) {
 			c.Violate("final-content", fmt.Sprintf("scenario {%s}: iterator after quiescence yields %v, expected %v", sc.Name, got, want), witness)
 		}
+		// the index levels must lead to every item the bottom level holds
+		for _, k := range want {
+			if _, _, found := s.Lookup(e.intItem(k), skiplist.CompareInt, buf, &s.Stats); !found {
+				c.Violate("final-lookup", fmt.Sprintf("scenario {%s}: after quiescence the iterator yields %v but Lookup(%d) does not find the item (it was inserted successfully and never deleted)", sc.Name, got, k), witness)
+				break
+			}
+		}
 		return append([]sChoice(nil), ctl.choices...)
 	}
 	for !c.Failed() {
@@ -613,7 +636,7 @@ func init() {
 	rt.Register(&rt.Prop{
 		ID: "C13", Level: "exploration",
 		Technique: "runtime monitoring: client-boundary histories checked with porcupine against an ordered-set model with node identities; micro-scenarios enumerated by the serialized controller over the skiplist's CAS hook points; structure walk at quiescence",
-		Rule: "cases 0..11: micro-scenarios (insert‖insert, insert‖delete, delete‖delete, with lookups, neighbours and node heights 0-2) explored depth-first by re-execution under the serialized controller with every hook point before a CAS in Insert4/softDelete/helpDelete as scheduling point (bounded, then seeded random); each schedule's results must be linearizable and the final scan exact. " +
+		Rule: "cases 0..13: micro-scenarios (insert‖insert, insert‖delete, delete‖delete, with lookups, neighbours and node heights 0-2) explored depth-first by re-execution under the serialized controller with every hook point before a CAS in Insert4/softDelete/helpDelete as scheduling point (bounded, then seeded random); each schedule's results must be linearizable and the final scan exact. " +
 			"Other cases: 2-16 goroutines issue Insert2/Insert3(forced level)/Delete/DeleteNode(handle, Go memory)/Lookup on 1-16 int keys in chained phases; per-key histories + post-quiescence scan are checked with porcupine (model state = identity of the key's current node, so 'a given node is deleted successfully by exactly one caller' is decided); Go-managed, poison and pageguard memory (user-managed deletes go through lookup + DeleteNode2 + FlushSession as nitro does). evaluations = schedules + histories; distinct = interleaving signatures",
 		Assumptions: []string{"in user-managed mode node handles are only used under the accessor token they were obtained with", "porcupine v1.3.0 trusted as checker"},
 		Cases: func(t string) int {
